@@ -1,0 +1,7 @@
+//go:build !verif
+
+package common
+
+// VerifReorder is a no-op unless the library is built with the "verif" tag
+// (verification hooks; see common/verif_hook_on.go).
+func VerifReorder[T any](r []T) {}
